@@ -306,6 +306,7 @@ void ds_sub_stack(void) {
         vp_violation("C20", "stack:lost", "round %d: pushed item #%zu never appeared in any flush result", cur_round, i);
     vp_sig(vp_mix(((uint64_t)n_push << 8) | (uint64_t)n_flushers, (uint64_t)vp_get(c_flush)));
     vp_progress();
+    vp_case();
     free((void*)s_taken);
     vp_add(c_rounds, 1);
     if (vp_violation_count()) break;
